@@ -51,3 +51,13 @@ Theorem C14_asis_order_deadlocks : exists s,
   exec false [0] init asis_schedule s /\ all_doneb [0] s = false /\ forall l, stepb false [0] s l = None.
 Proof. exact asis_order_deadlocks. Qed.
 Print Assumptions C14_asis_order_deadlocks.
+
+(** The boolean oracle evaluated on the implementation's runs means what it should. *)
+From PV Require Oracle.C14 Proofs.OracleTasksMetrics.
+Theorem C14_oracle_sound : forall ids results,
+  Oracle.C14.check ids results = true ->
+  List.length results = List.length ids /\
+  forall i o, nth_error results i = Some o ->
+    exists r, o = Some r /\ r < List.length ids /\ idof ids r = idof ids i.
+Proof. exact Proofs.OracleTasksMetrics.c14_check_sound. Qed.
+Print Assumptions C14_oracle_sound.
